@@ -648,3 +648,34 @@ def run(ctx):
                 return
 
     drive.for_each_case(ctx, 'field-options', 40, body_field_options, gen=lambda c, r: Ty('int'))
+
+    # the parametrisation stays with the instance (__replace__ re-validates against the SUBSTITUTED types and returns the same
+    # parametrised class), and a subscript with the wrong number of arguments is refused where it is written
+    def body_parametrised_instances(i, rng, ty, T):
+        import types as _types
+        TA, TB = t.TypeVar('TA'), t.TypeVar('TB')
+        Box = _types.new_class(f"PBox{next(_serial)}", (env.PaneBase, t.Generic[TA]), {}, lambda ns: ns.update({'__annotations__': {'x': TA, 'n': int}, 'n': 0, '__module__': __name__}))
+        Two = _types.new_class(f"PTwo{next(_serial)}", (env.PaneBase, t.Generic[TA, TB]), {}, lambda ns: ns.update({'__annotations__': {'a': TA, 'b': TB}, '__module__': __name__}))
+        arg, good, good2, bad = rng.choice(((int, 5, 7, 's'), (str, 's', 'u', 5), (t.List[int], [1], [2, 3], ['a'])))
+        inst = Box[arg](good)
+        ok_r = observe(inst.__replace__, x=good2)
+        bad_r = observe(inst.__replace__, x=bad)
+        ctx.count('parametrised_instance_checks')
+        if ok_r.kind != 'value' or type(ok_r.val) is not type(inst) or ok_r.val.x != good2 or bad_r.kind != 'converr':
+            ctx.violation('conversion-enforces-substituted-types', 'parametrised', i,
+                          {'instance': f"Box[{short(arg, 40)}]({good!r})", 'replace_with_member': ok_r.brief(), 'result_class_is_the_parametrised_class': ok_r.kind == 'value' and type(ok_r.val) is type(inst),
+                           'replace_with_non_member': bad_r.brief()}, mech='replace-loses-the-parametrisation')
+            return
+        for label, thunk in (('Two[int]', lambda: Two[int]), ('Box[int, str]', lambda: Box[int, str]), ('Box[int][str]', lambda: Box[int][str]),
+                             ('class Bad(Two[int])', lambda: type('Bad', (Two[int],), {'__annotations__': {}, '__module__': __name__})),
+                             ('Two[int, str, float]', lambda: Two[int, str, float])):
+            o = observe(thunk)
+            ctx.count('arity_checks')
+            if o.kind == 'value' or not isinstance(o.exc, TypeError):
+                ctx.violation('type-variable-substitution', 'parametrised', i, {'subscript': label, 'outcome': o.brief()}, mech='wrong-arity-subscript-accepted')
+                return
+        full = observe(lambda: Two[int, str](1, 's'))
+        if full.kind != 'value':
+            ctx.violation('type-variable-substitution', 'parametrised', i, {'subscript': 'Two[int, str](1, "s")', 'outcome': full.brief()}, mech='right-arity-subscript-refused')
+
+    drive.for_each_case(ctx, 'parametrised', 40, body_parametrised_instances, gen=lambda c, r: Ty('int'))
